@@ -170,6 +170,7 @@ static void reset_state(void) {
     next_id = 1; nlive = 0; reqs = refused = dfree = ufree = 0; fail_nbt = 0; tlen = 0; freed_n = 0;
 }
 
+static int want_out = 0;
 static void run(int doc, int opt, unsigned long k1, unsigned long k2, int with_trace, unsigned long site) {
     WB_UTINY *out = NULL; WB_ULONG len = 0; WBXMLError st; int i; unsigned j;
     uint64_t h; int outnn; Blk *first = NULL;
@@ -179,6 +180,9 @@ static void run(int doc, int opt, unsigned long k1, unsigned long k2, int with_t
     st = convert(&docs[doc], opt, &out, &len);
     outnn = out != NULL;
     h = fnv(out ? out : (WB_UTINY *) "", out ? len : 0);
+    enabled = 0;
+    if (want_out && out && st == WBXML_OK) { printf("outhex="); vh_puthex(stdout, out, len); printf(" "); }
+    enabled = 1;
     if (out) wbxml_free(out);              /* the result block belongs to the caller */
     enabled = 0;
     for (j = 0; j < NB; j++) { Blk *b; for (b = live[j]; b; b = b->next) if (!first || b->id < first->id) first = b; }
@@ -193,15 +197,45 @@ static void run(int doc, int opt, unsigned long k1, unsigned long k2, int with_t
     for (j = 0; j < NB; j++) { Blk *b; for (b = live[j]; b; b = b->next) free(b->p); }
 }
 
+/* helpers for the orchestrator (no failure injected): mk <doc> [S] = WBXML of an XML document as hex;
+   eq <hexA> <hexB> = do two WBXML documents denote the same XML (canonical form)? */
+static void cmd_mk(int doc, int nostr) {
+    WB_UTINY *out = NULL; WB_ULONG len = 0; WBXMLConvXML2WBXML *c = NULL;
+    wbxml_conv_xml2wbxml_create(&c);
+    if (nostr) wbxml_conv_xml2wbxml_disable_string_table(c);
+    if (wbxml_conv_xml2wbxml_run(c, docs[doc].data, (WB_ULONG) docs[doc].len, &out, &len) == WBXML_OK && out) {
+        vh_puthex(stdout, out, len); printf("\n"); wbxml_free(out);
+    } else printf("none\n");
+    wbxml_conv_xml2wbxml_destroy(c);
+}
+static int canon(const char *hex, WB_UTINY **xml, WB_ULONG *len) {
+    size_t n; unsigned char *d = vh_unhex(hex, &n); WBXMLConvWBXML2XML *c = NULL; WBXMLError st;
+    wbxml_conv_wbxml2xml_create(&c);
+    wbxml_conv_wbxml2xml_set_gen_type(c, WBXML_GEN_XML_CANONICAL);
+    st = wbxml_conv_wbxml2xml_run(c, d, (WB_ULONG) n, xml, len);
+    wbxml_conv_wbxml2xml_destroy(c); free(d);
+    return st == WBXML_OK;
+}
+static void cmd_eq(const char *a, const char *b) {
+    WB_UTINY *xa = NULL, *xb = NULL; WB_ULONG la = 0, lb = 0;
+    int oa = canon(a, &xa, &la), ob = canon(b, &xb, &lb);
+    printf("%s\n", (oa && ob && la == lb && memcmp(xa, xb, la) == 0) ? "same" : (oa && ob ? "diff" : "undecodable"));
+    if (xa) wbxml_free(xa);
+    if (xb) wbxml_free(xb);
+}
+
 int main(void) {
     char *line, *tok[8];
     load_docs();
     while ((line = vh_line(stdin)) != NULL) {
         int nt = vh_split(line, tok, 8), doc, opt;
+        if (nt >= 2 && strcmp(tok[0], "mk") == 0) { doc = atoi(tok[1]); if (doc >= 0 && doc < ndocs) cmd_mk(doc, nt > 2); else printf("bad\n"); fflush(stdout); continue; }
+        if (nt >= 3 && strcmp(tok[0], "eq") == 0) { cmd_eq(tok[1], tok[2]); fflush(stdout); continue; }
         if (nt < 4) { printf("bad\n"); continue; }
         doc = atoi(tok[1]); opt = atoi(tok[2]);
         if (doc < 0 || doc >= ndocs) { printf("bad\n"); continue; }
-        if (strcmp(tok[0], "run") == 0) run(doc, opt, strtoul(tok[3], 0, 10), 0, nt > 4 && tok[4][0] == 't', 0);
+        want_out = (nt > 4 && strchr(tok[4], 'o') != NULL);
+        if (strcmp(tok[0], "run") == 0) run(doc, opt, strtoul(tok[3], 0, 10), 0, nt > 4 && strchr(tok[4], 't') != NULL, 0);
         else if (strcmp(tok[0], "pair") == 0 && nt >= 5) run(doc, opt, strtoul(tok[3], 0, 10), strtoul(tok[4], 0, 10), 0, 0);
         else if (strcmp(tok[0], "site") == 0) { run(doc, opt, 0, 0, 0, strtoul(tok[3], 0, 10)); }
         else printf("bad\n");
